@@ -204,7 +204,8 @@ def match_known(pid: str, sig: Dict[str, str], known) -> Optional[dict]:
         if k.get("property") != pid:
             continue
         m = k.get("match", {})
-        if m and all(sig.get(a) == b for a, b in m.items()):
+        # a match value is a string (equality) or a list (any of)
+        if m and all((sig.get(a) in b) if isinstance(b, list) else (sig.get(a) == b) for a, b in m.items()):
             return k
     return None
 
